@@ -1892,6 +1892,9 @@ func corpusFiles() []string {
 		if strings.Contains(filepath.Base(f), "needs-h4b") && !bootHook {
 			continue // first-boot crash scripts need hook H4b in the tree under test
 		}
+		if strings.Contains(filepath.Base(f), "needs-h4c") && !forkHook {
+			continue // fork switch / availableGroupsAt scripts need hook H4c
+		}
 		fs = append(fs, f)
 	}
 	return fs
